@@ -223,7 +223,7 @@ func TestApprovalMatrix(t *testing.T) {
 		}
 		_ = begin
 		// every callback is invoked once per write
-		if !waitFor(func() bool { e.mu.Lock(); defer e.mu.Unlock(); return len(e.calls) >= nW*nCb }, 40*timeout) {
+		if !waitFor(func() bool { e.mu.Lock(); defer e.mu.Unlock(); return len(e.calls) >= nW*nCb }, 400*timeout) {
 			e.mu.Lock()
 			n := len(e.calls)
 			e.mu.Unlock()
@@ -274,7 +274,7 @@ func TestApprovalMatrix(t *testing.T) {
 				}
 			}
 			return true
-		}, 40*timeout)
+		}, 400*timeout)
 		// late verdicts
 		for _, v := range perm {
 			w := ws[v.w]
